@@ -608,7 +608,7 @@ helper_cases = st.fixed_dictionaries({
 
 
 def checks(tier):
-    n = {"quick": (96, 12, 800, 128, 96, 128), "thorough": (1024, 20, 16000, 1280, 1024, 1280)}.get(tier, (4, 6, 10, 4, 4, 4))
+    n = {"quick": (96, 12, 800, 128, 96, 128), "thorough": (960, 20, 8000, 1280, 960, 1280)}.get(tier, (4, 6, 10, 4, 4, 4))
     return [
         Check("viewer_histories", fn_viewer, strategy=viewer_cases(n[1]), examples=n[0]),
         Check("combo_helpers", fn_helper, strategy=helper_cases, examples=n[2]),
